@@ -38,7 +38,7 @@ Max2(a, b) == IF a >= b THEN a ELSE b
 
 MonInit(T, slack, strict) == [T |-> T, slack |-> slack, strict |-> strict, c |-> <<>>, bad |-> "", bads |-> ""]
 
-NewConn(t0, t1) == [lastAct |-> t0, idleSince |-> t1, held |-> 0, opening |-> 0, closed |-> FALSE, judged |-> TRUE]
+NewConn(t0, t1) == [lastAct |-> t0, idleSince |-> t1, held |-> 0, opening |-> 0, dropping |-> 0, ropening |-> 0, closed |-> FALSE, judged |-> TRUE]
 
 Fail(M, s, why) == IF M.bad = "" THEN [M EXCEPT !.bad = why, !.bads = s] ELSE M
 
@@ -49,14 +49,20 @@ MonEv(M, r) ==
   ELSE IF r.e \notin {"open_begin", "open_ok", "open_fail", "drop_begin", "drop_done", "closed", "check"} THEN M
   ELSE IF ~Known(M, r) THEN M
   ELSE LET s == r.s c == M.c[s] IN
-  \* a local open call that was accepted is activity at once; an open by the remote only when it succeeds
-  \* (tb = the stamp taken before the remote's call)
-  CASE r.e = "open_begin" -> [M EXCEPT !.c[s].opening = @ + 1, !.c[s].lastAct = IF r.rem THEN @ ELSE Max2(@, r.t)]
-    [] r.e = "open_ok"    -> [M EXCEPT !.c[s].opening = @ - 1, !.c[s].held = @ + 1,
-                                       !.c[s].lastAct = IF r.rem THEN Max2(@, r.tb) ELSE @]
-    [] r.e = "open_fail"  -> [M EXCEPT !.c[s].opening = @ - 1, !.c[s].idleSince = Max2(@, r.t)]
-    [] r.e = "drop_begin" -> [M EXCEPT !.c[s].held = @ - 1, !.c[s].lastAct = IF M.strict THEN Max2(@, r.t) ELSE @]
-    [] r.e = "drop_done"  -> [M EXCEPT !.c[s].idleSince = Max2(@, r.t)]
+  \* a local open call that was accepted is activity at once and the substream "is being opened" from then
+  \* on; an open by the remote is only known to have reached the node when it succeeded (tb = the stamp
+  \* taken before the remote's call), so it counts neither as activity nor as "being opened" before
+  \* (while it is unresolved the node may or may not hold a permit for it: Eventually is not judged)
+  CASE r.e = "open_begin" -> IF r.rem THEN [M EXCEPT !.c[s].ropening = @ + 1]
+                             ELSE [M EXCEPT !.c[s].opening = @ + 1, !.c[s].lastAct = Max2(@, r.t)]
+    [] r.e = "open_ok"    -> IF r.rem THEN [M EXCEPT !.c[s].ropening = @ - 1, !.c[s].held = @ + 1, !.c[s].lastAct = Max2(@, r.tb)]
+                             ELSE [M EXCEPT !.c[s].opening = @ - 1, !.c[s].held = @ + 1]
+    [] r.e = "open_fail"  -> IF r.rem THEN [M EXCEPT !.c[s].ropening = @ - 1, !.c[s].idleSince = Max2(@, r.t)]
+                             ELSE [M EXCEPT !.c[s].opening = @ - 1, !.c[s].idleSince = Max2(@, r.t)]
+    \* between drop_begin and drop_done the substream may or may not exist any more
+    [] r.e = "drop_begin" -> [M EXCEPT !.c[s].held = @ - 1, !.c[s].dropping = @ + 1,
+                                       !.c[s].lastAct = IF M.strict THEN Max2(@, r.t) ELSE @]
+    [] r.e = "drop_done"  -> [M EXCEPT !.c[s].dropping = @ - 1, !.c[s].idleSince = Max2(@, r.t)]
     [] r.e = "closed" ->
          IF c.closed THEN M
          ELSE IF r.by # "self" THEN [M EXCEPT !.c[s].closed = TRUE, !.c[s].judged = FALSE]
@@ -65,11 +71,11 @@ MonEv(M, r) ==
                 THEN Fail(M1, s, "closed by idleness while a keep-alive substream exists or is being opened")
               ELSE IF r.t - c.lastAct < M.T
                 THEN Fail(M1, s, "closed earlier than the keep-alive timeout after the last keep-alive activity")
-              ELSE IF r.t - c.idleSince > M.T + M.slack
+              ELSE IF c.dropping = 0 /\ c.ropening = 0 /\ r.t - c.idleSince > M.T + M.slack
                 THEN Fail(M1, s, "closed later than the keep-alive timeout plus slack after the connection became idle")
               ELSE M1
     [] r.e = "check" ->
-         IF ~c.closed /\ c.held = 0 /\ c.opening = 0 /\ r.t - c.idleSince > M.T + M.slack
+         IF ~c.closed /\ c.held = 0 /\ c.opening = 0 /\ c.dropping = 0 /\ c.ropening = 0 /\ r.t - c.idleSince > M.T + M.slack
            THEN Fail(M, s, "idle connection still open after the keep-alive timeout plus slack")
            ELSE M
     [] OTHER -> M
